@@ -279,42 +279,19 @@ theorem accepted_went (s : Option Settings) (pw : Bool) (st : St)
     exact ⟨rfl, Or.inr ⟨c, enc, kdf, k, rfl, hpw, henc6, hkdf6, hmk6, hder, hencr, rfl⟩⟩
 
 theorem makeConfig_parts (s : Settings) (cfg : Config) (h : makeConfig s = .ok cfg) :
-    ∃ kvh kvc, sectionArgs s "hashing" = .ok kvh ∧ fromConfig (withDefaultName kvh defaultHasher) = .ok cfg.hashing ∧
-      sectionArgs s "chunking" = .ok kvc ∧ fromConfig (withDefaultName kvc defaultChunker) = .ok cfg.chunking ∧
+    ∃ kvh kvc, sectionArgs s "hashing" = .ok kvh ∧ slotConfig "hashing" kvh defaultHasher = .ok cfg.hashing ∧
+      sectionArgs s "chunking" = .ok kvc ∧ slotConfig "chunking" kvc defaultChunker = .ok cfg.chunking ∧
       ((cfg.cipher = none ∧ encryptionSettings s = .ok none) ∨
        (∃ ci enc kv, cfg.cipher = some ci ∧ encryptionSettings s = .ok (some enc) ∧ subArgs enc "cipher" = .ok kv ∧
-          fromConfig (withDefaultName kv defaultCipher) = .ok ci)) := by
+          slotConfig "cipher" kv defaultCipher = .ok ci)) := by
   unfold makeConfig at h
-  cases h1 : sectionArgs s "hashing" with
-  | error e => simp [h1, bind, Except.bind] at h
-  | ok kvh =>
-  cases h2 : fromConfig (withDefaultName kvh defaultHasher) with
-  | error e => simp [h1, h2, bind, Except.bind] at h
-  | ok hh =>
-  cases h3 : sectionArgs s "chunking" with
-  | error e => simp [h1, h2, h3, bind, Except.bind] at h
-  | ok kvc =>
-  cases h4 : fromConfig (withDefaultName kvc defaultChunker) with
-  | error e => simp [h1, h2, h3, h4, bind, Except.bind] at h
-  | ok cc =>
-  cases h5 : encryptionSettings s with
-  | error e => simp [h1, h2, h3, h4, h5, bind, Except.bind] at h
-  | ok oenc =>
-  cases oenc with
-  | none =>
-    simp [h1, h2, h3, h4, h5, bind, Except.bind, pure, Except.pure] at h
-    subst h
-    exact ⟨kvh, kvc, rfl, h2, rfl, h4, Or.inl ⟨rfl, rfl⟩⟩
-  | some enc =>
-    cases h6 : subArgs enc "cipher" with
-    | error e => simp [h1, h2, h3, h4, h5, h6, bind, Except.bind] at h
-    | ok kv =>
-    cases h7 : fromConfig (withDefaultName kv defaultCipher) with
-    | error e => simp [h1, h2, h3, h4, h5, h6, h7, bind, Except.bind] at h
-    | ok ci =>
-      simp [h1, h2, h3, h4, h5, h6, h7, bind, Except.bind, pure, Except.pure] at h
-      subst h
-      exact ⟨kvh, kvc, rfl, h2, rfl, h4, Or.inr ⟨ci, enc, kv, rfl, rfl, h6, h7⟩⟩
+  repeat' split at h
+  all_goals first | (cases h; done) | skip
+  · cases h
+    exact ⟨_, _, by assumption, by assumption, by assumption, by assumption, Or.inl ⟨rfl, by assumption⟩⟩
+  · cases h
+    exact ⟨_, _, by assumption, by assumption, by assumption, by assumption,
+      Or.inr ⟨_, _, _, rfl, by assumption, by assumption, by assumption⟩⟩
 
 theorem hashing_from_input (s : Settings) (cfg : Config) (h : makeConfig s = .ok cfg) (hin : hashingInputOk s = true) :
     hasherUsable cfg.hashing = true := by
@@ -383,6 +360,13 @@ theorem fromConfig_mem (kv : Args) (row : AdapterRow) (a : Args) (h : fromConfig
         subst h1
         exact List.mem_of_find?_eq_some hrow
   · cases h
+
+theorem slotConfig_mem (slot : String) (kv : Args) (dflt : String) (row : AdapterRow) (a : Args)
+    (h : slotConfig slot kv dflt = .ok (row, a)) : row ∈ adapterTable := by
+  unfold slotConfig at h
+  repeat' split at h
+  all_goals first | (cases h; done) | skip
+  all_goals (cases h; exact fromConfig_mem _ _ _ (by assumption))
 
 theorem construct_row_args (row : AdapterRow) (args : Args) (c : Inst) (h : construct row args = .ok c) :
     c.row = row ∧ c.args = args := by
